@@ -1143,7 +1143,7 @@ class Factor(Sym):
         want = [_dim_of(l) for l in self.rows]
         new = ("new", self.side)
         def isnew(x):
-            return x == -1 or x == Dim(["new"]) or isinstance(x, str)
+            return x == -1 or x == Dim(["new"]) or isinstance(x, (str, MinOf))
         if not self.transposed and len(sh) == len(want) + 1 and sh[:-1] == want and isnew(sh[-1]):
             return DT("reshaped-factor", self.rows + [new])
         if self.transposed and len(sh) == len(want) + 1 and sh[1:] == want and isnew(sh[0]):
@@ -1204,6 +1204,7 @@ def _decomp_world(src, topo, log):
         return u, Blob("s"), ql, v, Blob("s"), qr
 
     def select_basis(u, s, qn, v, m, percent=0):
+        log.setdefault("kept", []).append(m)
         return Factor(u.rows, u.side), Blob("msdim"), qn, Factor(v.rows, v.side)
 
     def tensordot(a, v, axes=None):
@@ -1219,14 +1220,49 @@ def _decomp_world(src, topo, log):
     w.ttns.__dict__["compress_config"] = Sym("compress_config", bonddim_should_set=False, compute_m_trunc=compute_m_trunc)
     b = w.interp.builtins
     b.update({"add_outer": add_outer, "svd_qn": svd_qn, "select_basis": select_basis, "tensordot": tensordot,
-              "truncate_tensors": lambda u, s, v, ql, qr, m: (u, s, v, ql, qr),
+              "truncate_tensors": lambda u, s, v, ql, qr, m: (log.setdefault("kept", []).append(m), (u, s, v, ql, qr))[1],
               "moveaxis": lambda *a: w.interp.call_function(fmove, list(a)),
-              "isinstance": lambda x, t: isinstance(x, MList), "min": lambda *a: a[0], "len": lambda x: Blob("len") if isinstance(x, Blob) else len(x),
+              "isinstance": lambda x, t: isinstance(x, MList), "min": _smin, "len": lambda x: Blob("len(s)") if isinstance(x, Blob) else len(x),
               "np": Sym("np", zeros=lambda *a, **k: QList([]), prod=lambda sh: ProdDim([d.names[0] for d in sh]), array=lambda x: x, moveaxis=_moveaxis, ndarray=None)})
     sets = {}
     for n in w.snodes:
         n.__dict__["_on_tensor_set"] = (lambda node, v: (sets.setdefault(node._name, []).append(v), node.__dict__.__setitem__("tensor", v)))
     return w, sets
+
+
+class MinOf:
+    """min over a set of named bounds"""
+    def __init__(self, items):
+        self.items = frozenset(items)
+
+    def __repr__(self):
+        return "min(" + ", ".join(sorted(self.items)) + ")"
+
+    def __eq__(self, o):
+        return isinstance(o, MinOf) and o.items == self.items
+
+    def __hash__(self):
+        return hash(self.items)
+
+
+def _smin(*a):
+    if any(not isinstance(x, (str, MinOf, Blob)) for x in a):
+        return a[0]        # a size of a reshape target: the symbolic kept count stands for the new bond
+    out = set()
+    for x in (a[0] if len(a) == 1 and isinstance(a[0], (list, tuple)) else a):
+        out |= x.items if isinstance(x, MinOf) else {x if isinstance(x, str) else repr(x)}
+    return MinOf(out)
+
+
+def _kept_ok(kept, explicit):
+    """the kept count handed to the truncation: the configured count (possibly capped by the number of singular values), or the explicit limit capped by it"""
+    if not kept:
+        return False
+    m = kept[-1]
+    items = m.items if isinstance(m, MinOf) else {m if isinstance(m, str) else repr(m)}
+    if explicit is None:
+        return "m_trunc" in items and items <= {"m_trunc", "len(s)"}
+    return items == {explicit, "len(s)"}
 
 
 def decomposition_axes(chk, src, topologies=NET_TOPOLOGIES):
@@ -1287,13 +1323,14 @@ def decomposition_axes(chk, src, topologies=NET_TOPOLOGIES):
                         want_idx = c.idx
                         cfg = [b_ for b_ in log["bond"] if b_[0] == "config"]
                         if "config" in fn:
-                            okb = cfg == [("config", want_idx, False)]
-                            found = cfg
+                            okb = cfg == [("config", want_idx, False)] and _kept_ok(log.get("kept"), None)
+                            found = {"config lookups": cfg, "kept count": repr((log.get("kept") or [None])[-1])}
                         else:
-                            okb = True
-                            found = "list path"
-                        chk.ob("decomposition-axes", f"{fn} bond index [{topo}: {n} -> child {i}]", okb, fi.where, found, [("config", want_idx, False)], line=fi.node.lineno,
-                               detail="the bond between a node and its child is configured under the child's index in node_list")
+                            okb = _kept_ok(log.get("kept"), f"limit[{want_idx}]")
+                            found = {"kept count": repr((log.get("kept") or [None])[-1])}
+                        chk.ob("decomposition-axes", f"{fn} bond index [{topo}: {n} -> child {i}]", okb, fi.where, found,
+                               {"config lookups": [("config", want_idx, False)], "kept count": "m_trunc"} if "config" in fn else {"kept count": f"min(len(s), limit[{want_idx}])"}, line=fi.node.lineno,
+                               detail="the bond between a node and its child is configured under the child's index in node_list; an explicit limit is capped by the number of singular values")
             # ---------------- two-site update
             if n_idx > 0:
                 for cano_parent in (True, False):
@@ -1310,7 +1347,7 @@ def decomposition_axes(chk, src, topologies=NET_TOPOLOGIES):
                         class PL(MList):
                             def __getitem__(self, k):
                                 picked.append(k)
-                                return "limit"
+                                return f"limit[{k}]"
                         kw = {"cano_parent": cano_parent}
                         if mode == "list":
                             kw["m"] = PL()
@@ -1322,10 +1359,11 @@ def decomposition_axes(chk, src, topologies=NET_TOPOLOGIES):
                         want_p = plegs0[:ip] + [("new", "R")] + plegs0[ip + 1:]
                         idx_used = [b_[1] for b_ in log["bond"]] if mode == "config" else picked
                         ok = not log["problems"] and isinstance(got, T) and got.legs == want_n and isinstance(gotp, T) and gotp.legs == want_p \
-                            and isinstance(n.qn, QItem) and n.qn.side == sideN and idx_used == [n.idx] and (mode == "list" or log["bond"][0][2] is False)
+                            and isinstance(n.qn, QItem) and n.qn.side == sideN and idx_used == [n.idx] and (mode == "list" or log["bond"][0][2] is False) \
+                            and _kept_ok(log.get("kept"), None if mode == "config" else f"limit[{n.idx}]")
                         chk.ob("decomposition-axes", f"update_2site[{mode}, cano_parent={cano_parent}] [{topo}: {n}+{p}]", ok, fi.where,
-                               log["problems"][:2] or {"node axes": getattr(got, "legs", None), "parent axes": getattr(gotp, "legs", None), "node.qn": repr(n.qn), "bond index": idx_used},
-                               {"node axes": want_n, "parent axes": want_p, "node.qn": "new-bond labels, sub-tree side (L)", "bond index": [n.idx]}, line=fi.node.lineno,
+                               log["problems"][:2] or {"node axes": getattr(got, "legs", None), "parent axes": getattr(gotp, "legs", None), "node.qn": repr(n.qn), "bond index": idx_used, "kept count": repr((log.get("kept") or [None])[-1])},
+                               {"node axes": want_n, "parent axes": want_p, "node.qn": "new-bond labels, sub-tree side (L)", "bond index": [n.idx], "kept count": "configured count / min(explicit limit, len(s))"}, line=fi.node.lineno,
                                detail=f"two-site update of {n} and its parent: " + (log["problems"][0] if log["problems"] else
                                       "the factors are not restored to the two nodes' axis orders, the labels are stored for the wrong side, or the kept-count is looked up under another bond's index") +
                                       " - the truncation then uses the limit of a different bond, or the state is silently permuted")
